@@ -241,3 +241,40 @@ package cbor
 //@   ensures[utf8] err == nil ==> utf8valid(bytes(out))
 //@   ensures spos(d.r) >= old(spos(d.r)) && spos(d.r) <= send(d.r)
 //@   assigns spos(d.r)
+
+// ---- maps (C11): sorted by encoded key, duplicates refused ------------------
+
+// wellFormedEntry(m): both staging buffers of a map entry have been written
+// and never read, so Bytes() is everything that was written.
+//@ def entryFresh(m *MapEntryEncoder) bool = m != nil && spos(m.keyBuf) == 0 && send(m.keyBuf) == accepted(m.keyBuf) && spos(m.valueBuf) == 0 && send(m.valueBuf) == accepted(m.valueBuf)
+
+//@ func (*MapEntryEncoder).KeyBytes
+//@   props C11
+//@   pure
+//@   requires spos(e.keyBuf) == 0 && send(e.keyBuf) == accepted(e.keyBuf)
+//@   ensures bytes(result) == content(e.keyBuf)
+
+// The comparison used for sorting: bytewise order of the encoded keys.
+//@ func (*Encoder).EncodeMap$1
+//@   props C11
+//@   pure
+//@   requires 0 <= i && i < len(*entries) && 0 <= j && j < len(*entries)
+//@   requires entryFresh((*entries)[i]) && entryFresh((*entries)[j])
+//@   ensures result == (bytesCompare(content((*entries)[i].keyBuf), content((*entries)[j].keyBuf)) < 0)
+
+//@ func (*Encoder).EncodeMap
+//@   props C11 C19 C04
+//@   requires e.w != nil && !failed(e.w)
+//@   requires forall k int :: 0 <= k && k < len(mes) ==> entryFresh(mes[k])
+//@   ensures[write-failure-surfaces] failed(e.w) ==> result != nil
+//@   ensures[skew] accepted(e.w) - wrapped(e.w) == old(accepted(e.w) - wrapped(e.w))
+//@   ensures accepted(e.w) >= old(accepted(e.w))
+//@   assigns accepted(e.w), failed(e.w), content(e.w), wrapped(e.w), all(spos)
+//@   loop 0:
+//@     invariant e.w != nil && !failed(e.w) && len(entries) == len(mes) && fresh(entries)
+//@     invariant[permutation] forall k int :: 0 <= k && k < len(entries) ==> entries[k] == old(mes[sortperm(k)]) && 0 <= sortperm(k) && sortperm(k) < len(mes)
+//@     invariant[sorted] forall a int, b int :: 0 <= a && a < b && b < len(entries) ==> bytesCompare(content(entries[b].keyBuf), content(entries[a].keyBuf)) >= 0
+//@     invariant[emitted-strictly-ascending] forall a int :: 0 <= a && a < rangeindex ==> bytesCompare(content(entries[a].keyBuf), content(entries[a + 1].keyBuf)) < 0
+//@     invariant[last-key] rangeindex >= 0 ==> lastKeyBytes != nil && bytes(lastKeyBytes) == content(entries[rangeindex].keyBuf)
+//@     invariant rangeindex < 0 ==> lastKeyBytes == nil
+//@     invariant accepted(e.w) - wrapped(e.w) == old(accepted(e.w) - wrapped(e.w)) && accepted(e.w) >= old(accepted(e.w))
